@@ -172,6 +172,21 @@ impl<'a> Outlines<'a> {
         }
         (false, F26Dot6::from_bits(0x10000))
     }
+
+    /// Computes the scale factor for HarfBuzz-style (floating point)
+    /// scaling.
+    ///
+    /// Unlike [`compute_scale`](Self::compute_scale), which yields a 16.16
+    /// factor with a built in 26.6 conversion, this is the plain
+    /// `ppem / units_per_em` ratio.
+    pub fn compute_hb_scale(&self, ppem: Option<f32>) -> (bool, f32) {
+        if let Some(ppem) = ppem {
+            if self.units_per_em > 0 {
+                return (true, ppem / self.units_per_em as f32);
+            }
+        }
+        (false, 1.0)
+    }
 }
 
 impl Outlines<'_> {
@@ -316,7 +331,7 @@ pub(crate) struct HarfBuzzScaler<'a> {
     contour_count: usize,
     component_delta_count: usize,
     ppem: f32,
-    scale: F26Dot6,
+    scale: f32,
     is_scaled: bool,
     /// Phantom points. These are 4 extra points appended to the end of an
     /// outline that allow the bytecode interpreter to produce hinted
@@ -335,7 +350,7 @@ impl<'a> HarfBuzzScaler<'a> {
         coords: &'a [F2Dot14],
     ) -> Result<Self, DrawError> {
         outline.ensure_point_count_limit()?;
-        let (is_scaled, scale) = outlines.compute_scale(ppem);
+        let (is_scaled, scale) = outlines.compute_hb_scale(ppem);
         let memory =
             HarfBuzzOutlineMemory::new(outline, buf).ok_or(DrawError::InsufficientMemory)?;
         Ok(Self {
@@ -1042,7 +1057,7 @@ impl Scaler for HarfBuzzScaler<'_> {
     fn load_empty(&mut self, glyph_id: GlyphId) -> Result<(), DrawError> {
         // HB doesn't have an equivalent so this version just copies the
         // FreeType version above but changed to use floating point
-        let scale = self.scale.to_f32();
+        let scale = self.scale;
         let mut unscaled = self.phantom;
         if self.outlines.glyph_metrics.hvar.is_none()
             && self.outlines.gvar.is_some()
@@ -1139,7 +1154,7 @@ impl Scaler for HarfBuzzScaler<'_> {
         }
         // Apply scaling
         if self.is_scaled {
-            let scale = self.scale.to_f32();
+            let scale = self.scale;
             for point in points.iter_mut() {
                 *point = point.map(|c| c * scale);
             }
@@ -1164,7 +1179,7 @@ impl Scaler for HarfBuzzScaler<'_> {
         recurse_depth: usize,
     ) -> Result<(), DrawError> {
         use DrawError::InsufficientMemory;
-        let scale = self.scale.to_f32();
+        let scale = self.scale;
         // The base indices of the points for the current glyph.
         let point_base = self.point_count;
         // Compute the per component deltas. Since composites can be nested, we
@@ -1261,6 +1276,9 @@ impl Scaler for HarfBuzzScaler<'_> {
                             .get(delta_base + i)
                             .copied()
                             .unwrap_or_default();
+                    }
+                    if self.is_scaled {
+                        offset *= scale;
                     }
                     offset
                 }
